@@ -140,8 +140,11 @@ def handleEngine (toks : List String) : String :=
   | none => "bad-op"
   | some c =>
     let cfg : Cfg := c.nss
+    -- the harness ends runaway checks the same way: every storage call beyond its budget fails
+    -- (harness/drive/engrun.go callBudget); runs within the budget are not affected
+    let budget : Nat := 4000
     let fails : Nat → Bool := fun k =>
-      c.faultAt != 0 && (if c.faultPersistent then k ≥ c.faultAt else k == c.faultAt)
+      k > budget || (c.faultAt != 0 && (if c.faultPersistent then k ≥ c.faultAt else k == c.faultAt))
     let pageSize := if c.pageSize == 0 then Keto.Facts.defaultPageSize else c.pageSize
     let E : Env := { cfg := cfg, strict := c.strict, maxWidth := c.width, T := c.tuples, fails := fails,
                      pageSize := pageSize }
@@ -151,7 +154,7 @@ def handleEngine (toks : List String) : String :=
     let fuel := checkFuel cfg d + 1
     let rw := check E c.gdepth fuel c.query c.rdepth
     -- fault-free run (for the C03 oracle)
-    let E0 : Env := { E with fails := fun _ => false }
+    let E0 : Env := { E with fails := fun k => k > budget }
     let rw0 := check E0 c.gdepth fuel c.query c.rdepth
     let nodes := (c.tuples.length + 2) * (size + c.tuples.length + 2)
     let rfuel := nodes * (size + 3) + 16
